@@ -24,11 +24,13 @@ cp /repo/Cargo.lock "$root/repo/Cargo.lock" 2>/dev/null
 ( cd "$root/repo" && git apply "$patch" ) || { echo "$name PATCH-DOES-NOT-APPLY"; git -C /repo worktree remove --force "$root/repo"; exit 2; }
 export CARGO_NET_OFFLINE=true CARGO_TERM_COLOR=never
 if [ "${BASELINE:-0}" = 1 ]; then
-  ( cd "$root/repo" && CARGO_TARGET_DIR=$T-repo cargo test --workspace --no-fail-fast --offline >"$root/baseline.log" 2>&1 )
+  ( cd "$root/repo" && CARGO_TARGET_DIR=$T-repo timeout -k 5 ${MT_BASELINE_TIMEOUT:-900} cargo test --workspace --no-fail-fast --offline >"$root/baseline.log" 2>&1 ) || echo "error[timeout-or-failure] baseline exit status $?" >>"$root/baseline.log"
   if grep -q "test result: FAILED\|error\[" "$root/baseline.log"; then echo "$name BASELINE-FAILS (see $root/baseline.log)"; grep -E "^test .* FAILED|^error" "$root/baseline.log" | head -5; else
     echo "$name baseline: $(grep -c '^test .* ok$' "$root/baseline.log") tests ok, 0 failed"; fi
 fi
-rsync -a --exclude target /verif/mc/ "$root/mc/"
+# the checker source: the COMMITTED tree (HEAD of /verif) unless MT_WORKTREE=1 -- so that a run started
+# while files are being edited never picks up a half-edited checker
+if [ "${MT_WORKTREE:-0}" = 1 ]; then rsync -a --exclude target /verif/mc/ "$root/mc/"; else mkdir -p "$root/mc" && git -C /verif archive HEAD mc | tar -x -C "$root"; cp /verif/mc/Cargo.lock /verif/mc/Cargo.toml "$root/mc/" 2>/dev/null; fi
 sed -i "s|/repo/|$root/repo/|g" "$root/mc/mc/Cargo.toml"
 ( cd "$root/mc" && RUSTFLAGS="--cfg unic_locale_verif" CARGO_TARGET_DIR=$T cargo build --release --offline -q --features likelysubtags,serde -p mc 2>"$root/build.log" ) \
   || { echo "$name BUILD-FAILS"; tail -20 "$root/build.log"; [ "${KEEP:-0}" = 1 ] || { git -C /repo worktree remove --force "$root/repo"; rm -rf "$root"; }; exit 2; }
